@@ -91,6 +91,23 @@ class Once:
     return float('inf') if n == 0 else float('-inf')
 
 
+class Holder:
+  """H[x]: an object that accepts attribute and item stores and logs them."""
+
+  def __init__(self, rec: Recorder):
+    object.__setattr__(self, '_rec', rec)
+
+  def __getitem__(self, k):
+    self._rec.log.append(('H', _norm(k)))
+    return self
+
+  def __setattr__(self, name, value):
+    self._rec.log.append(('H.set', name, _norm(value)))
+
+  def __setitem__(self, k, value):
+    self._rec.log.append(('H.setitem', _norm(k), _norm(value)))
+
+
 class Deleter:
 
   def __init__(self, rec: Recorder):
@@ -121,7 +138,7 @@ class ErrMaker:
 
 def make_env() -> Tuple[Dict[str, Any], Recorder]:
   rec = Recorder()
-  return {'S': rec, 'W': Once(rec), 'D': Deleter(rec), 'Q': list(range(10)), 'A': 100, 'NS': types.SimpleNamespace(),
+  return {'S': rec, 'W': Once(rec), 'D': Deleter(rec), 'Q': list(range(10)), 'A': 100, 'NS': types.SimpleNamespace(), 'H': Holder(rec),
           'E': ErrMaker(rec, XErr, 'E'), 'F': ErrMaker(rec, YErr, 'F')}, rec
 
 
@@ -167,7 +184,7 @@ def _norm(v, depth=0):
     return ['module', v.__name__]
   if isinstance(v, BaseException):
     return ['exception', type(v).__name__, str(v)]
-  if isinstance(v, (Recorder, Once, Deleter, ErrMaker)):
+  if isinstance(v, (Recorder, Once, Deleter, ErrMaker, Holder)):
     return ['harness', type(v).__name__]
   return ['object', type(v).__name__]
 
@@ -330,12 +347,14 @@ def render_node(c: Ctx, kind: str, child: Optional[Tuple[str, Any]], store: bool
   if k == 'Attribute':
     if store:       # a target: an attribute of the namespace object (or of the child's value)
       v = e('value', True)
-      return 'E', (f'({v}).real' if v else f'NS.{c.name("f")}')
+      # (`(x).attr: T = v` is refused by the grammar for a parenthesised name, so a child value is wrapped
+      # by the holder H[...] instead of by parentheses)
+      return 'E', (f'H[{v}].{c.name("f")}' if v else f'NS.{c.name("f")}')
     return 'E', f'({e("value")}).real'
   if k == 'Subscript':
     if store:       # a target: an element of the list Q (or of the child's value)
       v, ix = e('value', True), e('index', True)
-      return 'E', (f'({v})[{c.s()}]' if v else f'Q[{ix}]' if ix else 'Q[1]')
+      return 'E', (f'H[{v}][{c.s()}]' if v else f'Q[{ix}]' if ix else 'Q[1]')
     return 'E', f'({e("value")})[{e("index")}]'
   if k == 'Slice':
     lo, up, st = e('lower', True), e('upper', True), e('step', True)
